@@ -36,21 +36,28 @@ const (
 
 // variant is one configuration of the observing consumer.
 type variant struct {
-	Name     string `json:"name"`
-	MaxBytes int32  `json:"fetch_max_bytes"` // FetchMaxBytes and FetchMaxPartitionBytes
-	Keep     bool   `json:"keep_control_records"`
+	Name      string `json:"name"`
+	MaxBytes  int32  `json:"fetch_max_bytes"`           // kgo.FetchMaxBytes (request level)
+	PartBytes int32  `json:"fetch_max_partition_bytes"` // kgo.FetchMaxPartitionBytes
+	Keep      bool   `json:"keep_control_records"`
 }
 
+const large = 1 << 20
+
 // Batches of this check are 70..90 bytes. kfake returns at least one batch and
-// stops before the batch that would exceed the limit: 1 => one batch per
-// response, 170 => two batches per response, 1 MiB => everything below the LSO.
+// stops before the batch that would exceed a limit: limit 1 => one batch per
+// response, 170 => two batches per response, 1 MiB => everything below the
+// LSO. "part*" variants split through the partition-level limit, "req1"
+// through the request-level limit (kgo clamps the partition limit to it).
 var variants = []variant{
-	{"large", 1 << 20, false},
-	{"large+ctrl", 1 << 20, true},
-	{"tiny", 1, false},
-	{"tiny+ctrl", 1, true},
-	{"pair", 170, false},
-	{"pair+ctrl", 170, true},
+	{"large", large, large, false},
+	{"large+ctrl", large, large, true},
+	{"part1", large, 1, false},
+	{"part1+ctrl", large, 1, true},
+	{"part170", large, 170, false},
+	{"part170+ctrl", large, 170, true},
+	{"req1", 1, 1, false},
+	{"req1+ctrl", 1, 1, true},
 }
 
 func variantByName(n string) *variant {
@@ -62,7 +69,19 @@ func variantByName(n string) *variant {
 	return nil
 }
 
+// keySuffix separates the violation classes of consumers whose fetch
+// responses are cut by the request-level byte limit from the others (the
+// broker code path differs), so that a finding of one kind cannot hide a
+// finding of the other kind behind the same key.
+func (v *variant) keySuffix() string {
+	if v.MaxBytes < large {
+		return "@request-max-bytes"
+	}
+	return ""
+}
+
 type violation struct {
+	Key     string `json:"key"`
 	Class   string `json:"class"`
 	Step    int    `json:"step"` // index of the step after which it was observed
 	Sym     string `json:"symbol"`
@@ -124,7 +143,8 @@ type harness struct {
 	vars    []variant
 	st      *stats
 
-	viol  *violation
+	viols []violation
+	fatal bool // a harness-level violation: the rest of the history cannot be judged
 	infra error
 	step  int
 	sym   sym
@@ -136,13 +156,33 @@ func (h *harness) logf(format string, a ...any) {
 	}
 }
 
-func (h *harness) bad() bool { return h.viol != nil || h.infra != nil }
+func (h *harness) bad() bool { return h.fatal || h.infra != nil }
 
-func (h *harness) violate(class, variant, format string, a ...any) {
+// violate reports a harness-level problem (a step failed, or model and broker
+// log disagree): the history stops.
+func (h *harness) violate(class, _ string, format string, a ...any) {
 	if h.bad() {
 		return
 	}
-	h.viol = &violation{Class: class, Step: h.step, Sym: symName[h.sym], Variant: variant, Detail: fmt.Sprintf(format, a...)}
+	h.fatal = true
+	h.viols = append(h.viols, violation{Key: class, Class: class, Step: h.step, Sym: symName[h.sym], Detail: fmt.Sprintf(format, a...)})
+	h.logf("    VIOLATION %s: %s", class, h.viols[len(h.viols)-1].Detail)
+}
+
+// flag reports what one consumer read did wrong; the history goes on (a
+// wrong read does not disturb the log) so that the other variants and the
+// longer histories are still judged. The expensive context is attached to
+// the first violation of a key in this execution only.
+func (h *harness) flag(v *variant, class, what string, ctxt func() string) {
+	key := class + v.keySuffix()
+	for i := range h.viols {
+		if h.viols[i].Key == key && !h.verbose {
+			ctxt = func() string { return "" }
+			break
+		}
+	}
+	h.viols = append(h.viols, violation{Key: key, Class: class, Step: h.step, Sym: symName[h.sym], Variant: v.Name, Detail: what + ctxt()})
+	h.logf("    VIOLATION %s (consumer %s): %s", key, v.Name, h.viols[len(h.viols)-1].Detail)
 }
 
 func (h *harness) baseOpts(id string) []kgo.Opt {
@@ -371,7 +411,7 @@ func (h *harness) newReader(v variant) *reader {
 		kgo.ConsumePartitions(map[string]map[int32]kgo.Offset{topic: {0: kgo.NewOffset().At(0)}}),
 		kgo.FetchIsolationLevel(kgo.ReadCommitted()),
 		kgo.FetchMaxBytes(v.MaxBytes),
-		kgo.FetchMaxPartitionBytes(v.MaxBytes),
+		kgo.FetchMaxPartitionBytes(v.PartBytes),
 		kgo.FetchMaxWait(fetchWait),
 		kgo.WithHooks(&r.fc),
 	)
@@ -452,50 +492,54 @@ func (h *harness) judge(v variant, r *reader) {
 	h.st.Reads++
 	h.st.ReadsByVariant[v.Name]++
 	ctxt := func() string {
-		return fmt.Sprintf("\nconsumer %q (FetchMaxBytes=%d keepControl=%v) returned %s\n%swhat the broker answers to sessionless read_committed fetches of that size (hand-framed, diagnostic only):\n%s",
-			v.Name, v.MaxBytes, v.Keep, fmtGot(r.recs), m.dump(), h.raw.explain(v.MaxBytes))
+		return fmt.Sprintf("\nconsumer %q (FetchMaxBytes=%d FetchMaxPartitionBytes=%d keepControl=%v) returned %s\n%swhat the broker answers to sessionless read_committed fetches of that size (hand-framed, diagnostic only):\n%s",
+			v.Name, v.MaxBytes, v.PartBytes, v.Keep, fmtGot(r.recs), m.dump(), h.raw.explain(v.MaxBytes, v.PartBytes))
+	}
+	bad := func(class, format string, a ...any) {
+		h.flag(&v, class, fmt.Sprintf(format, a...), ctxt)
 	}
 	if len(r.errs) > 0 {
-		h.violate("harness:consumer-error", v.Name, "consumer reported errors: %v%s", r.errs, ctxt())
+		bad("harness:consumer-error", "consumer reported errors: %v", r.errs)
 		return
 	}
+	// check judges what was returned: one violation per read at most (the first).
 	check := func(recs []got) bool {
 		last := int64(-1)
 		for i, g := range recs {
 			if g.off <= last {
-				h.violate("duplicate-or-disorder", v.Name, "record %d of the read has offset %d after offset %d%s", i, g.off, last, ctxt())
+				bad("duplicate-or-disorder", "record %d of the read has offset %d after offset %d", i, g.off, last)
 				return false
 			}
 			last = g.off
 			e := m.at(g.off)
 			if e == nil {
-				h.violate("phantom-record", v.Name, "returned offset %d which the log does not have (hwm %d)%s", g.off, m.hwm, ctxt())
+				bad("phantom-record", "returned offset %d which the log does not have (hwm %d)", g.off, m.hwm)
 				return false
 			}
 			if g.control || e.marker {
 				if !v.Keep {
-					h.violate("control-visible", v.Name, "control record at offset %d returned without KeepControlRecords%s", g.off, ctxt())
+					bad("control-visible", "control record at offset %d returned without KeepControlRecords", g.off)
 					return false
 				}
 				if !g.control || !e.marker {
-					h.violate("phantom-record", v.Name, "offset %d: returned control=%v, log has marker=%v%s", g.off, g.control, e.marker, ctxt())
+					bad("phantom-record", "offset %d: returned control=%v, log has marker=%v", g.off, g.control, e.marker)
 					return false
 				}
 				continue
 			}
 			if g.val != e.val {
-				h.violate("phantom-record", v.Name, "offset %d returned with value %q, log has %q%s", g.off, g.val, e.val, ctxt())
+				bad("phantom-record", "offset %d returned with value %q, log has %q", g.off, g.val, e.val)
 				return false
 			}
 			switch o := m.outcomeOf(e); {
 			case o == oAborted || o == oTimedOut:
-				h.violate("aborted-visible", v.Name, "returned offset %d (%q) of %s's transaction %d which was %s%s", g.off, g.val, prodName[e.prod], e.txn, outcomeName[o], ctxt())
+				bad("aborted-visible", "returned offset %d (%q) of %s's transaction %d which was %s", g.off, g.val, prodName[e.prod], e.txn, outcomeName[o])
 				return false
 			case o == oOpen:
-				h.violate("open-visible", v.Name, "returned offset %d (%q) of %s's transaction %d which is still open%s", g.off, g.val, prodName[e.prod], e.txn, ctxt())
+				bad("open-visible", "returned offset %d (%q) of %s's transaction %d which is still open", g.off, g.val, prodName[e.prod], e.txn)
 				return false
 			case g.off >= m.lso():
-				h.violate("beyond-lso-visible", v.Name, "returned offset %d (%q) at or above the last stable offset %d%s", g.off, g.val, m.lso(), ctxt())
+				bad("beyond-lso-visible", "returned offset %d (%q) at or above the last stable offset %d", g.off, g.val, m.lso())
 				return false
 			}
 		}
@@ -521,15 +565,15 @@ func (h *harness) judge(v variant, r *reader) {
 		n := len(r.recs)
 		r.drain(confirmIdle)
 		if len(r.errs) > 0 {
-			h.violate("harness:consumer-error", v.Name, "consumer reported errors: %v%s", r.errs, ctxt())
+			bad("harness:consumer-error", "consumer reported errors: %v", r.errs)
 			return
 		}
 		if !check(r.recs) {
 			return
 		}
 		if e = missing(); e != nil {
-			h.violate("committed-missing", v.Name, "offset %d (%q, %s) is committed/non-transactional and below the last stable offset %d but was not returned (polled until idle for %v, then %v more)%s",
-				e.off, e.val, strings.TrimSpace(m.describe(e)), m.lso(), pollIdle, confirmIdle, ctxt())
+			bad("committed-missing", "offset %d (%q, %s) is committed/non-transactional and below the last stable offset %d but was not returned (polled until idle for %v, then %v more)",
+				e.off, e.val, strings.TrimSpace(m.describe(e)), m.lso(), pollIdle, confirmIdle)
 			return
 		}
 		if len(r.recs) > n {
@@ -565,7 +609,7 @@ func (h *harness) judge(v variant, r *reader) {
 // runHistory executes one history on a fresh single-broker kfake cluster
 // inside its own synctest bubble. Steps with index >= checkFrom are followed
 // by the observation (earlier prefixes were observed by another execution).
-func runHistory(t *testing.T, hist []sym, checkFrom int, vars []variant, verbose bool, onState func(m *model)) (viol *violation, infra error, final *model, st *stats) {
+func runHistory(t *testing.T, hist []sym, checkFrom int, vars []variant, verbose bool, onState func(m *model)) (viols []violation, infra error, final *model, st *stats) {
 	st = newStats()
 	synctest.Test(t, func(t *testing.T) {
 		var vnet kfake.VirtualNetwork
@@ -614,7 +658,7 @@ func runHistory(t *testing.T, hist []sym, checkFrom int, vars []variant, verbose
 				break
 			}
 		}
-		viol, infra = h.viol, h.infra
+		viols, infra = h.viols, h.infra
 	})
 	return
 }
